@@ -408,6 +408,9 @@ class Interp:
                 return args[0]
             if 'RangeInclusive' in p and seg == 'new':
                 return ('range', args[0], args[1])
+            if p in ('core::cmp::max', 'core::cmp::min', 'std::cmp::max', 'std::cmp::min') and len(args) == 2 \
+                    and all(isinstance(x, int) and not isinstance(x, bool) for x in args):
+                return max(args) if seg == 'max' else min(args)
             raise Unanalysable(f'call of `{p}` in a pure expression')
         if k == 'mcall':
             name = e.get('name')
@@ -419,6 +422,19 @@ class Interp:
                 return recv
             if name == 'is_some':
                 return recv != ('ctor', 'core::option::Option::None')
+            if name in ('max', 'min', 'saturating_add', 'saturating_sub') and isinstance(recv, int) and not isinstance(recv, bool) \
+                    and len(args) == 1 and isinstance(args[0], int) and not isinstance(args[0], bool):
+                t = (e.get('t') or '').strip()
+                bounds = {'u8': (0, 255), 'u16': (0, 65535), 'u32': (0, 2 ** 32 - 1), 'u64': (0, 2 ** 64 - 1), 'usize': (0, 2 ** 64 - 1),
+                          'i8': (-128, 127), 'i16': (-2 ** 15, 2 ** 15 - 1), 'i32': (-2 ** 31, 2 ** 31 - 1), 'i64': (-2 ** 63, 2 ** 63 - 1)}.get(t)
+                if name == 'max':
+                    return max(recv, args[0])
+                if name == 'min':
+                    return min(recv, args[0])
+                if bounds is None:
+                    raise Unanalysable(f'`{name}` on a value of unknown width `{t}`')
+                r = recv + args[0] if name == 'saturating_add' else recv - args[0]
+                return max(bounds[0], min(bounds[1], r))
             raise Unanalysable(f'method `{name}` in a pure expression')
         if k == 'struct':
             p = e.get('path') or ''
